@@ -13,6 +13,7 @@ import (
 
 	"github.com/anishathalye/porcupine"
 	"github.com/vulcand/oxy/v2/connlimit"
+	"github.com/vulcand/oxy/v2/utils"
 )
 
 func init() {
@@ -29,6 +30,8 @@ func init() {
 		},
 	})
 }
+
+var connExtractorSeq int
 
 // connDriver runs requests through a ConnLimiter with handlers that block until released.
 type connDriver struct {
@@ -70,12 +73,25 @@ func newConnDriver(limit int64) *connDriver {
 		d.entered <- id
 		p := <-rel
 		g.Add(-1)
+		// the wrapped handler edits the request it was given (the limiter must have taken the source at admission)
+		switch id % 3 {
+		case 0:
+			req.Header.Set("X-Src", "rewritten-by-handler")
+		case 1:
+			req.Header.Del("X-Src")
+		}
 		if p {
 			panic("scripted handler panic")
 		}
 		w.WriteHeader(200)
 	})
-	cl, err := connlimit.New(h, hdrExtractor, limit)
+	// the library's own header extractor, configured with one of several legal spellings of the header name
+	connExtractorSeq++
+	ex, err := utils.NewExtractor("request.header." + []string{"X-Src", "x-src", "X-SRC", "x-Src"}[connExtractorSeq%4])
+	if err != nil {
+		panic(err)
+	}
+	cl, err := connlimit.New(h, ex, limit)
 	if err != nil {
 		panic(err)
 	}
